@@ -159,6 +159,21 @@ class _TFn(T):
     def wrap(self, term, home=None): return SFn(term)
 
 
+class TFnRole(T):
+    """a callback with a declared role (model / loss / predict): identity of sort Fn plus the role tag"""
+
+    def __init__(self, role):
+        self.role = role
+        self.name = 'Fn'
+
+    def sort(self): return FnS
+
+    def wrap(self, term, home=None):
+        f = SFn(term)
+        f.role = self.role
+        return f
+
+
 class _TNone(T):
     name = 'None'
 
@@ -298,6 +313,20 @@ class TTuple(T):
         return STuple([t.wrap(z3.simplify(dt.accessor(0, i)(term))) for i, t in enumerate(self.ts)])
 
 
+class TArr(T):
+    """a raw (ghost) array, e.g. the stream history: index -> element"""
+
+    def __init__(self, i, e):
+        self.i, self.e = i, e
+        self.name = f"Arr_{i.name}_{e.name}"
+
+    def sort(self):
+        return z3.ArraySort(self.i.sort(), self.e.sort())
+
+    def wrap(self, term, home=None):
+        return SArr(self, term)
+
+
 CLASSES = {}     # short class name -> ClassSpec (filled by pyvc.spec)
 
 
@@ -397,8 +426,12 @@ class SVal(SV):
 
 class SFn(SV):
     typ = TFn
+    role = None
 
-    def __init__(self, t): self.t = t
+    def __init__(self, t, role=None):
+        self.t = t
+        if role:
+            self.role = role
     def __repr__(self): return f"SFn({self.t})"
 
 
@@ -487,6 +520,14 @@ class SList(SCompound):
     def __repr__(self): return f"SList<{self.typ.name}>"
 
 
+class SArr(SV):
+    def __init__(self, typ, t):
+        self.typ, self.t = typ, t
+
+    def __getitem__(self, i):
+        return self.t[i]
+
+
 class STuple(SV):
     def __init__(self, items):
         self.items = list(items)
@@ -562,7 +603,8 @@ class SObj(SV):
         if self.fields is None:
             return self.get()
         sp = self.spec().all_fields()
-        return self.typ.mk({n: pack(self.fields[n], sp[n]) for n in sp})
+        return self.typ.mk({n: (pack(self.fields[n], sp[n]) if self.fields.get(n) is not None else sp[n].default())
+                            for n in sp})
 
     def __repr__(self): return f"SObj<{self.cls}>"
 
@@ -578,6 +620,12 @@ def pack(v, typ=None):
         if typ is TInt and not v.is_int:
             raise TypeError("real where int expected")
         return v.t
+    if v is NONE and typ is TVal:
+        return z3.Const('none_val', ValS)
+    if isinstance(v, SKey) and typ is TVal:
+        return z3.Function('key_as_val', KeyS, ValS)(v.t)
+    if isinstance(v, SNum) and typ is TVal:
+        return z3.Function('num_as_val', z3.RealSort(), ValS)(v.real())
     if isinstance(v, SBool) and typ is TNum:
         return z3.If(v.t, z3.RealVal(1), z3.RealVal(0))
     return v.t
@@ -589,7 +637,7 @@ def clone(v, memo=None):
         memo = {}
     if id(v) in memo:
         return memo[id(v)]
-    if isinstance(v, (SNum, SBool, SKey, SVal, SFn, _SNone)):
+    if isinstance(v, (SNum, SBool, SKey, SVal, SFn, _SNone, SArr)):
         return v
     if isinstance(v, STuple):
         r = STuple([clone(i, memo) for i in v.items])
